@@ -325,6 +325,11 @@ def _run_shard(exe, cases, timeout, args, env):
     return results
 
 
+class Results(dict):
+    """dict id -> result, remembering the executable that produced it (used for shrinking replays)."""
+    exe = None; args = (); env = None
+
+
 def run_cases(exe, cases, shards=None, timeout=600, args=(), env=None):
     """Run all cases through exe in parallel shards. Returns dict id -> result."""
     e = dict(SAN_ENV)
@@ -332,7 +337,8 @@ def run_cases(exe, cases, shards=None, timeout=600, args=(), env=None):
         e.update(env)
     shards = shards or min(NCPU, max(1, len(cases) // 8))
     parts = [cases[i::shards] for i in range(shards)]
-    results = {}
+    results = Results()
+    results.exe, results.args, results.env = exe, tuple(args), e
     with ThreadPoolExecutor(max_workers=shards) as ex:
         for r in ex.map(lambda p: _run_shard(exe, p, timeout, args, e) if p else {}, parts):
             results.update(r)
@@ -444,6 +450,7 @@ class Check:
         self.assumptions = []
         self.extra = {}
         self.kind_filter = None      # callable(kind) -> bool: which oracle kinds belong to this property
+        self._impl_exe = None        # (exe, args, env) of the implementation harness, for shrinking replays
         self.ignored_oracle = 0
         self.checker_cmd = "make -C coq Props/Properties_%s.vo (coqc 8.16.1, full .vo build) + Print Assumptions" % pid
         os.makedirs(REPLAYS, exist_ok=True)
@@ -500,6 +507,8 @@ class Check:
     def compare(self, cases, impl, model, nontrivial=None):
         """Standard C+O leg over results of run_cases. cases: list of (id, lines).
         nontrivial(cid, lines, impl_result) -> hashable key or None."""
+        if getattr(impl, "exe", None):
+            self._impl_exe = (impl.exe, impl.args, impl.env)
         for cid, lines in cases:
             ri = impl.get(cid)
             rm = model.get(cid)
@@ -557,6 +566,7 @@ class Check:
                 if kind in seen:
                     continue
                 seen.add(kind)
+                lines = self._shrink(kind, lines)
                 path = self._write_replay(cid, lines, "oracle failure on the implementation: %s %s" % (kind, msg))
                 print("VIOLATION property=%s replay=%s" % (self.pid, path))
                 violations += 1
@@ -575,6 +585,29 @@ class Check:
         self._evidence(level, violations, sorted(printed_known))
         sys.stdout.flush()
         return 1 if violations else 0
+
+    def _shrink(self, kind, lines):
+        """Delta-debug an oracle-failing script against the implementation harness (same oracle kind must persist)."""
+        if not self._impl_exe or len(lines) < 3 or len(lines) > 4000 or self.replay:
+            return lines
+        exe, args, env = self._impl_exe
+        t_end = time.time() + 25
+
+        def pred(ls):
+            if time.time() > t_end:
+                return False
+            r = _run_shard(exe, [("shrink", ls)], 20, args, env).get("shrink")
+            if not r:
+                return False
+            if kind == "crash":
+                return bool(r.get("crash"))
+            return any(o.partition(" ")[0] == kind for o in r["oracle"])
+        try:
+            if not pred(lines):
+                return lines
+            return ddmin(lines, pred, budget=120)
+        except Exception:
+            return lines
 
     def _write_replay(self, cid, lines, why):
         h = hashlib.sha1(("\n".join(lines) + why).encode()).hexdigest()[:10]
